@@ -322,6 +322,13 @@ def main():
         TARGETS.update(_D.TARGETS)
     except ImportError:
         pass
+    # tools/harness/tie_gen_<name>.py, each exposing TARGETS = {name: fn(rng, n) -> {"coq", "n", "descr"}}
+    import importlib
+    from pathlib import Path
+
+    for p in sorted(Path(__file__).resolve().parent.glob("tie_gen_*.py")):
+        if p.stem != "tie_gen_desugar":
+            TARGETS.update(importlib.import_module("harness." + p.stem).TARGETS)
     cfg = json.load(sys.stdin)
     out = {}
     for name in cfg["names"]:
